@@ -18,6 +18,20 @@ KIND = {"str": (1,), "int": (2, 3), "bool": (3,), "float": (4,)}
 K_STR, K_INT, K_BOOL, K_REAL = 1, 2, 3, 4
 
 
+class VTypeOf(V):
+    """type(e) of an exception known only up to subclassing."""
+
+    def __init__(self, exc):
+        self.exc = exc
+
+
+class VMatch(V):
+    """Result of re.match: matched (Bool), groups gid -> (participated Bool, value String term), names name -> gid."""
+
+    def __init__(self, matched, groups, names):
+        self.matched, self.groups, self.names = matched, groups, names
+
+
 class VSuper(V):
     def __init__(self, recv, module, cls):
         self.recv, self.module, self.cls = recv, module, cls
@@ -39,6 +53,15 @@ def num_of(t):
 class Dyn(Calls):
     # ------------------------------------------------------------------ boxing
     def box(self, v):
+        if isinstance(v, VTuple):
+            if not v.items:
+                t = z3.Const("py_empty_tuple", ObjSort)
+                self.assume(z3.And(t != PyNone, kind_of(t) == 10, z3.Not(z3.Function("py_truthy", ObjSort, z3.BoolSort())(t))))
+                return t
+            f = z3.Function("py_tuple%d" % len(v.items), *([ObjSort] * len(v.items) + [ObjSort]))
+            t = f(*[self.box(x) for x in v.items])
+            self.assume(z3.And(t != PyNone, kind_of(t) == 10))
+            return t
         if isinstance(v, VCont):
             return self.box_cont(v)
         if isinstance(v, VEnt):
@@ -73,6 +96,29 @@ class Dyn(Calls):
                 return o
         o = self.fresh_obj(v.cls)
         self.assume(z3.And(kind_of(o) == 8, self.class_pred(v.cls)(o)))
+        # class facts of the object's class: its bases (for isinstance), and class-level `name = None` defaults of attributes that the
+        # entity table does not list as instance fields
+        mod, q = self.reg.entity_methods[v.cls]
+        seen, stack, defaults = set(), [(mod, q)], {}
+        while stack:
+            m_, c_ = stack.pop(0)
+            if (m_, c_) in seen:
+                continue
+            seen.add((m_, c_))
+            self.assume(self.class_pred(c_.split(".")[-1])(o))
+            node = self.src.module(m_).classes.get(c_)
+            for st_ in (node.body if node else []):
+                if isinstance(st_, ast.Assign) and len(st_.targets) == 1 and isinstance(st_.targets[0], ast.Name) and isinstance(st_.value, ast.Constant) and st_.value.value is None:
+                    defaults.setdefault(st_.targets[0].id, (m_, c_))
+                elif isinstance(st_, ast.FunctionDef):
+                    defaults.setdefault(st_.name, None)    # a property / method of that name shadows a base-class default
+            stack = self.src.class_bases(m_, c_) + stack
+        for a, where in defaults.items():
+            if where is not None and a in self.reg.attrs and a not in self.reg.entities[v.cls] and not self.reg.attrs[a][1]:
+                ty = self.reg.attrs[a][0]
+                if isinstance(ty, (TObj, TOpt)):
+                    f_ = z3.Function("attr_" + a, ObjSort, ty.sort())
+                    self.assume(f_(o) == self.to_term(VNone, ty))
         boxed = dict(boxed)
         boxed[o.get_id()] = (o, v)
         self.st.ghost["$boxed_ents"] = boxed
@@ -135,7 +181,26 @@ class Dyn(Calls):
             z3.Implies(t == PyNone, k == 0), z3.Not(truthy(PyNone))))
 
     # ------------------------------------------------------------------ equality / truth / isinstance on objects
+    def bi_type(self, args, kwargs, node):
+        v = args[0]
+        if isinstance(v, VExc) and not v.exact:
+            return VTypeOf(v)
+        return super().bi_type(args, kwargs, node)
+
     def equal(self, a, b, identity=False):
+        if isinstance(a, VClass) and isinstance(b, VClass):
+            return z3.BoolVal(a.name == b.name)
+        if isinstance(a, VTypeOf) or isinstance(b, VTypeOf):
+            t, c = (a, b) if isinstance(a, VTypeOf) else (b, a)
+            if not isinstance(c, VClass):
+                raise Unsupported("type(e) compared with %r" % (c,))
+            from .interp import is_exc_subclass
+            exc = t.exc
+            possible = is_exc_subclass(self.reg, self.src, c.name, exc.cls) and not any(is_exc_subclass(self.reg, self.src, c.name, x) for x in exc.excl)
+            if not possible:
+                return z3.BoolVal(False)
+            # the exception is `exc.cls or any subclass`: its exact type may or may not be c
+            return self.fresh("type_is_" + c.name, z3.BoolSort())
         if not identity and (not self.spec_mode or self.pure_code):
             prim = (VStr, VInt, VBool, VReal)
             if isinstance(a, VObj) and isinstance(b, prim):
@@ -166,6 +231,8 @@ class Dyn(Calls):
         return eq(x, y)
 
     def truth(self, v):
+        if isinstance(v, VMatch):
+            return v.matched
         if isinstance(v, VObj) and v.cls not in self.reg.plain_truthy:
             self.dyn_facts(v.t)
         return super().truth(v)
@@ -208,6 +275,8 @@ class Dyn(Calls):
         return super().ev_Call(n)
 
     def get_attr(self, base, name, node=None):
+        if isinstance(base, VMatch):
+            return VMethod(base, name)
         if isinstance(base, VSuper):
             for m, c in self.src.class_bases(base.module, base.cls):
                 fi = self.src.find_method(m, c, name)
@@ -223,6 +292,21 @@ class Dyn(Calls):
                 if hit is not None:
                     return super().get_attr(VCont(hit[1]), name, node)
         return super().get_attr(base, name, node)
+
+    def call_method(self, recv, name, args, kwargs, node):
+        if isinstance(recv, VMatch):
+            if not self.spec_mode and not self.branch(recv.matched):
+                raise PyRaise(VExc("AttributeError", []))   # None.group(...)
+            if name == "groupdict" and not args:
+                box = self.new_box(EmptyV("dict"))
+                self.materialize(box, TDict(TStr, TOpt(TStr)))
+                for nm, gid in recv.names.items():
+                    self.dict_set(box, VStr(nm), self.match_group(recv, gid))
+                return box
+            if name == "group" and len(args) == 1 and isinstance(args[0], VInt) and z3.is_int_value(z3.simplify(args[0].t)):
+                return self.match_group(recv, z3.simplify(args[0].t).as_long())
+            raise Unsupported("match.%s" % name)
+        return super().call_method(recv, name, args, kwargs, node)
 
     def bi_object___init__(self, args, kwargs, node):
         return VNone
@@ -353,6 +437,12 @@ class Dyn(Calls):
     def binop(self, op, a, b):
         if self.spec_mode:
             # specifications are total: an optional operand stands for its value (meaningful under `is not None`)
+            a = a.val if isinstance(a, VOpt) else a
+            b = b.val if isinstance(b, VOpt) else b
+        else:
+            for x in (a, b):
+                if isinstance(x, VOpt) and self.branch(x.isnone):
+                    raise PyRaise(VExc("TypeError", [VStr("unsupported operand type(s): 'NoneType'")]))
             a = a.val if isinstance(a, VOpt) else a
             b = b.val if isinstance(b, VOpt) else b
         num = (VInt, VReal, VBool)
@@ -622,3 +712,96 @@ class Dyn(Calls):
                 arr, n_ = c.arr, c.n
                 return self.image_set(lambda i: z3.And(0 <= i, i < n_), TInt, lambda i: self.from_term(arr[i], c.ty.e), c.ty.e)
         return super().bi_set(args, kwargs, node)
+
+    # ------------------------------------------------------------------ re.match on a pattern read from the source (pyvc.regex)
+    def bi_re_match(self, args, kwargs, node):
+        from . import regex as RX
+        pat = z3.simplify(args[0].t) if isinstance(args[0], VStr) else None
+        if pat is None or not z3.is_string_value(pat) or len(args) != 2 or kwargs:
+            raise Unsupported("re.match with a non-constant pattern or flags")
+        s = args[1]
+        if not isinstance(s, VStr):
+            s = VStr(self.to_term(s, TStr))
+        try:
+            enc = RX.Encoding(pat.as_string(), self.fresh)
+            w = enc.new_vector("rx")
+            feas, groups = enc.feasible(w, s.t, "rx")
+            matched = self.fresh("rx_matched", z3.BoolSort())
+            self.assume(z3.Implies(matched, feas))
+            c = self.reg.contracts.get(self.frame.fi.fid) if self.frame and self.frame.fi else None
+            for hint in (c.labels.get("regex_hints", []) if c else []):
+                hg, optlits = {}, []
+                for key, expr in hint.items():
+                    val = self.eval_spec_value(expr)
+                    if key == "optional_literals":
+                        continue
+                    gid = enc.names[key] if key in enc.names else int(key)
+                    if val is VNone:
+                        hg[gid] = (z3.BoolVal(True), z3.StringVal(""))
+                    elif isinstance(val, VOpt):
+                        hg[gid] = (val.isnone, val.val.t)
+                    elif isinstance(val, VStr):
+                        hg[gid] = (z3.BoolVal(False), val.t)
+                    else:
+                        raise Unsupported("regex hint value %r" % (val,))
+                for e in hint.get("optional_literals", []):
+                    optlits.append(self.truth(self.eval_spec_value(e)) if isinstance(e, str) else z3.BoolVal(bool(e)))
+                w0 = enc.vector_from_groups(hg, optlits)
+                f0, _ = enc.feasible(w0, s.t, "rxh", pieces=w0.pieces)
+                self.assume(z3.Implies(f0, z3.And(matched, enc.at_least_as_preferred(w, w0))))
+        except RX.RegexUnsupported as e:
+            raise Unsupported("regular expression: %s" % e)
+        return VMatch(matched, groups, enc.names)
+
+    def eval_spec_value(self, expr):
+        node = self.parse_clause(expr)
+        saved = (self.spec_env, self.pol)
+        self.spec_env = dict(self.st.env)
+        self.spec_mode += 1
+        self.pol = 0
+        try:
+            return self.ev(node)
+        finally:
+            self.spec_mode -= 1
+            self.spec_env, self.pol = saved
+
+    def match_group(self, m, gid):
+        part, val = m.groups[gid]
+        return VOpt(z3.Not(z3.And(m.matched, part)), VStr(val))
+
+    def m_str_find(self, recv, args, kwargs):
+        start = args[1].t if len(args) > 1 else z3.IntVal(0)
+        return VInt(z3.IndexOf(recv.t, args[0].t, start))
+
+    def m_str_rfind(self, recv, args, kwargs):
+        return VInt(z3.LastIndexOf(recv.t, args[0].t))
+
+    def sp_full_match(self, n):
+        """full_match(s, 'regex'): s is in the regular language of the pattern (supported regex subset)."""
+        from . import regex as RX
+        sv = self.ev(n.args[0])
+        if isinstance(sv, VOpt):
+            sv = sv.val
+        pat = n.args[1].value
+        try:
+            nodes, _, _ = RX.parse(pat)
+        except RX.RegexUnsupported as e:
+            raise Unsupported("regular expression: %s" % e)
+        return VBool(z3.InRe(sv.t, RX.language(nodes)))
+
+    def bi_list(self, args, kwargs, node):
+        if args and "list" in self.reg.constructors:
+            return self.reg.constructors["list"](self, args, kwargs)
+        return super().bi_list(args, kwargs, node)
+
+    def bi_tuple(self, args, kwargs, node):
+        if "tuple" in self.reg.constructors:
+            return self.reg.constructors["tuple"](self, args, kwargs)
+        if not args:
+            return VTuple([])
+        raise Unsupported("tuple(x)")
+
+    def bi_len(self, args, kwargs, node):
+        if args and isinstance(args[0], VOpt) and self.spec_mode:
+            return super().bi_len([args[0].val], kwargs, node)
+        return super().bi_len(args, kwargs, node)
